@@ -117,6 +117,25 @@ def run(res):
             hs.append(h2)
         h.close()
         hs.append(h)
+    # no variable at all: closed expressions with the empty ordering / an empty argument list
+    closed = 0
+    for src, val in (('1', True), ('0', False), ('0 | 1', True), ('1 & 0', False), ('~0', True), ('not 1', False),
+                     ('1 and (0 or 1)', True), ('True', True), ('False', False)):
+        closed += 1
+        forms = [('OBDD(%r, [])' % src, lambda: OBDD(src, [])), ('OBDD(%r, ordering=[])' % src, lambda: OBDD(src, ordering=[])),
+                 ('OBDD(%r)' % ('lambda: ' + src), lambda: OBDD('lambda: ' + src))]
+        got = [B.attempt(f) for _, f in forms]
+        for (name, _), o in zip(forms, got):
+            if isinstance(o, tuple):
+                res.violation('%s raised %s (a closed expression over no variable)' % (name, o[1]), {'expression': src, 'call': name})
+            elif B.impl_eval(o.root, {}) != val:
+                res.violation('%s denotes %s, expected %s' % (name, not val, val), {'expression': src, 'call': name})
+        if not any(isinstance(o, tuple) for o in got):
+            a, b, c = got
+            rt = B.attempt(lambda: (a == b, a == c, OBDD(str(a.root), []) == a, OBDD(str(a)) == a))
+            if rt != (True, True, True, True):
+                res.violation('closed expression %r: (expr form == keyword form, == lambda form, OBDD(str(o.root), []) == o, '
+                              'OBDD(str(o)) == o) is %r' % (src, rt), {'expression': src})
     st = B.run_histories(res, hs, 'C18')
     problems = proof_coverage(res, THEOREMS, MODULES)
     for p in problems:
@@ -128,5 +147,6 @@ def run(res):
                 'malformed stream (missing variable / non-Boolean syntax at a random position); '
                 'distinct_nontrivial = distinct histories',
         'expected_status_histogram': status,
+        'closed_expressions_over_no_variable': closed,
         'traces_validated_against_impl': len(hs),
     })
